@@ -1,7 +1,7 @@
 (* C12: regression witness of the repaired defect ad4d524 (6 nodes).  Rule 4 of PC.skeleton_to_pdag used to fire on
    X - Z - Y, X -> W <- Y, Z - W also when X and Y are adjacent (Meek's rule 3 requires them non-adjacent) and then
    oriented against the truth; the bound of the finite-domain theorems (4 in Coq, 5 exhaustively in the run) could not
-   see it.  As coded now the former witness is exact. *)
+   see it.  As coded now the former witness is exact.  (One boolean, so that the class is enumerated once.) *)
 From Coq Require Import List Bool Arith PeanoNat.
 From PV Require Import Base.Reach Base.Graph C08.Model C12.Model C12.ModelFix C12.Spec C12.FiniteDefs.
 Import ListNotations.
@@ -10,22 +10,22 @@ Definition g_r6 : digraph :=
   {| nodes := [0; 1; 2; 3; 4; 5];
      edges := [(0, 1); (0, 2); (0, 3); (1, 2); (3, 1); (4, 3); (5, 0); (5, 1); (5, 2); (5, 3)] |}.
 
-Example rule4_witness_6 :
-  exists g vars sord A,
-    length (nodes g) = 6 /\ acyclicb g = true /\ In (1, 2) (edges g) /\
-    skeleton_exactb g (build_skeleton Stable (dsep_oracle g) 6 vars sord) = true /\
-    (* before ad4d524: not the CPDAG, the compelled true edge 1 -> 2 came out as 2 -> 1 *)
-    pc_pdag_prefix Stable (dsep_oracle g) 6 vars sord = Some A /\
-    cpdag_exactb g vars (Some A) = false /\
-    harc A 2 1 = true /\ harc A 1 2 = false /\
-    harc (cpdag_arcs g) 1 2 = true /\ harc (cpdag_arcs g) 2 1 = false /\
-    (* as coded now: exact, for the three variants *)
-    cpdag_exactb g vars (pc_pdag Orig (dsep_oracle g) 6 vars sord) = true /\
-    cpdag_exactb g vars (pc_pdag Stable (dsep_oracle g) 6 vars sord) = true /\
-    cpdag_exactb g vars (pc_pdag Parallel (dsep_oracle g) 6 vars sord) = true.
-Proof.
-  exists g_r6, [0; 1; 2; 3; 4; 5], [0; 1; 2; 3; 4; 5]. eexists.
-  split; [reflexivity|]. split; [vm_compute; reflexivity|]. split; [simpl; tauto|].
-  split; [vm_compute; reflexivity|]. split; [vm_compute; reflexivity|].
-  repeat split; vm_compute; reflexivity.
-Qed.
+Definition rule4_witness_check : bool :=
+  let g := g_r6 in
+  let ord := [0; 1; 2; 3; 4; 5] in
+  let c := cpdag_arcs g in
+  (* the true edge 1 -> 2 is compelled in the class *)
+  acyclicb g && has_edge g 1 2 && harc c 1 2 && negb (harc c 2 1)
+  (* exact skeleton *)
+  && skeleton_exactb g (build_skeleton Stable (dsep_oracle g) 6 ord ord)
+  (* before ad4d524: not the CPDAG, 1 -> 2 came out as 2 -> 1 *)
+  && match pc_pdag_prefix Stable (dsep_oracle g) 6 ord ord with
+     | Some A => negb (arcs_eqb A c) && harc A 2 1 && negb (harc A 1 2)
+     | None => false
+     end
+  (* as coded now: the CPDAG, variants orig and stable (parallel = stable, Skeleton.pc_pdag_parallel_stable) *)
+  && match pc_pdag Orig (dsep_oracle g) 6 ord ord with Some A => arcs_eqb A c | None => false end
+  && match pc_pdag Stable (dsep_oracle g) 6 ord ord with Some A => arcs_eqb A c | None => false end.
+
+Example rule4_witness_6 : rule4_witness_check = true.
+Proof. vm_compute. reflexivity. Qed.
